@@ -1,5 +1,7 @@
 // Harness for C14 (WebSocket callbacks ordered and exactly-once; concurrent writes stay whole).
-// Implementation-only oracle: real nbhttp servers / net/http servers with the real websocket.Upgrader on loopback in every
+// Part 1 (queue.go): the real websocket.Conn over a socket whose writes the harness holds, in lock step with the extracted
+// write-side model (coq/wsconc/SendQueue.v) - findings of kind "mismatch", signature sendqueue-model.
+// Part 2, implementation-only oracle: real nbhttp servers / net/http servers with the real websocket.Upgrader on loopback in every
 // upgrade path (poller-driven, blocking with the engine's parser loop, blocking with the connection's own HandleRead loop,
 // transferred to the poller from a blocking engine and from net/http, mixed) x epoll mode x write mode (direct / send queue),
 // raw TCP clients speaking RFC 6455 themselves.
